@@ -10,6 +10,7 @@ package main
 // recipients' Wrap output and hand-made stanzas.
 
 import (
+	"crypto/sha256"
 	"crypto/ecdsa"
 	"crypto/ed25519"
 	"crypto/elliptic"
@@ -142,6 +143,23 @@ func newC19Key(r *h.Rand, rsaKey bool) c19KeyPair {
 	return c19KeyPair{k, p}
 }
 
+// collidingEd25519 searches (birthday search, about 2^16·1.25 keys) for two Ed25519 keys whose SSH tags — the first
+// 32 bits of SHA-256 of the wire form — are equal: the tag on a stanza cannot tell such keys apart, only the
+// comparison of the whole public key can
+func collidingEd25519(r *h.Rand) (c19KeyPair, c19KeyPair) {
+	seen := map[[4]byte]c19KeyPair{}
+	for {
+		k := newC19Key(r, false)
+		sum := sha256.Sum256(k.pub.Marshal())
+		var t [4]byte
+		copy(t[:], sum[:4])
+		if o, ok := seen[t]; ok {
+			return o, k
+		}
+		seen[t] = k
+	}
+}
+
 func opensshPEM(priv interface{}) []byte {
 	blk, err := ssh.MarshalPrivateKeyWithPassphrase(priv, "c19", c19Right)
 	if err != nil {
@@ -199,7 +217,11 @@ func newC19Cfg(r *h.Rand, name string, rsaKey bool, stored string, legacy bool, 
 	var honest [3]*age.Stanza
 	for i := 0; i < 3; i++ {
 		honest[i] = mustWrap(sshRecipient(keys[i].pub), c.fk)
-		c.pieces[fmt.Sprintf("s:%d:%s:%d", i+1, ar, i+1)] = honest[i]
+		tagID := i + 1
+		if honest[i].Args[0] == mustWrap(sshRecipient(keys[0].pub), c.fk).Args[0] {
+			tagID = 1 // a key whose 32-bit tag collides with the declared key's: the stanza carries the declared tag
+		}
+		c.pieces[fmt.Sprintf("s:%d:%s:%d", tagID, ar, i+1)] = honest[i]
 	}
 	c.tag = honest[0].Args[0]
 	// another age recipient type, and the other SSH type
@@ -445,7 +467,11 @@ func runC19(cx *ctx) {
 		sampled int // plus this many random sequences one longer
 		random  int // random histories over arbitrary stanza lists
 	}
+	colA, colB := collidingEd25519(r)
+	col := [3]c19KeyPair{colA, colB, ed[2]}
 	plans := []plan{
+		// the key file holds a key that does not belong to the declared public key but has the SAME 32-bit tag
+		{newC19Cfg(r, "ed25519/other-same-tag", false, "2", false, col, rs[2]), cx.n(2, 3), cx.n(200, 1500), cx.n(40, 800)},
 		{newC19Cfg(r, "ed25519/own", false, "1", false, ed, rs[2]), cx.n(3, 4), cx.n(0, 1500), cx.n(60, 800)},
 		{newC19Cfg(r, "ed25519/other", false, "2", false, ed, rs[2]), cx.n(2, 4), cx.n(400, 1500), cx.n(60, 800)},
 		{newC19Cfg(r, "ed25519/ecdsa-file", false, "x", false, ed, rs[2]), 2, cx.n(0, 200), cx.n(10, 100)},
@@ -458,9 +484,13 @@ func runC19(cx *ctx) {
 		p := p
 		c := p.cfg
 		ar := strconv.Itoa(c.arity)
+		second := "s:2:" + ar + ":2"
+		if _, ok := c.pieces[second]; !ok {
+			second = "s:1:" + ar + ":2" // (its tag collides with the declared key's)
+		}
 		files := [][]string{
 			{"o:9:1:0", "s:1:" + ar + ":1"}, // to the declared key (after a stanza of another type)
-			{"s:2:" + ar + ":2"},            // to the other key of the same type (the stored one in */other)
+			{second},                        // to the other key of the same type (the stored one in */other)
 			{"s:3:" + ar + ":3"},            // to an unrelated key of the same type
 			{"o:9:1:0"},                     // another recipient type only
 		}
